@@ -17,6 +17,26 @@ checks={
    technique="explicit-state BFS over the real pebble-backed store (replay on a fresh instance per transition) against a reference map, plus exhaustive op sequences after a retained Get",
    text="BFS over {put (8 colliding ids x 4 sizes, 300 kB on two ids), get, reopen, flush, compact, churn} from three real start states (empty, populated+reopened, after one prune) x 3 node ids, depth 2 (thorough 3), states deduplicated on (reference map, persisted and in-memory counter, radius); after every transition the database is scanned and every pool id read back through the API. Second family: every op sequence of length <= 2 (thorough 3) over 9 operations after a Get whose returned slice is retained (memtable, sstable and post-churn origins): the bytes handed back must never change. Runs in worker processes so that a crash (use-after-free) is reported as a violation.",
    note="pebble opened with 64 kB memtable/cache by the harness; capacity 1 MB; in-memory file system; ids of other lengths identified with their padded/truncated form.", design="5/C04"),
+ "C05": dict(level="model_checking", engine="E2+E3+E6",
+   technique="explicit-state BFS over put histories on the real store + exhaustive preemption-bounded interleavings of concurrent Puts at AST-injected yield points under a controlled scheduler",
+   text="(a) BFS over put histories: 6 pool ids x 6 boundary sizes (0, 20 kB, exactly 5%, 5%+1, 30%, capacity+1) from 4 real start states (empty, 93% full, 93% full after a prune, capacity 0) x 3 node ids, depth 2 (thorough 3); after every put the database is scanned and the clauses evaluated: an over-capacity put frees >=5% or everything; items <=5% => held <= capacity; in-memory and persisted usage >= held; dropped keys >= kept keys. (b) 7 scenarios of 2-3 concurrent putters (same id, both crossing capacity, overwrite racing a prune, ...): every interleaving with <=2 preemptions (thorough 3) at the yields injected before each shared-state statement of storage.go, with mutexes of the instrumented file modelled by the scheduler; clauses evaluated once all calls returned.",
+   note="Capacity 1 MB / 0 only; statement-level interleaving granularity; pebble internals not interleaved; the Compact goroutine runs when no putter is enabled; in-memory FS. Short-lived worker processes because prune() leaks a pebble iterator per call.", design="5/C05"),
+ "C06": dict(level="model_checking", engine="E2+E1",
+   technique="explicit-state BFS over put histories with the radius oracle + full product of boundary (node id, radius, distance) triples through the in-range test and the Store RPC",
+   text="(a) the C05(a) exploration with pool distances whose big- and little-endian readings order differently; after every put: radius did not grow, a refusal for insufficient radius only at distance >= radius, every retained item within the advertised radius (big-endian XOR metric, from a scan of the database). Each clause is also evaluated under the byte-reversed reading so that the known endianness finding has its own fingerprints and anything else is a new violation. (b) 29-value boundary lattice of radii x (lattice + radius+-1) distances x 3 node ids through inRange, and lattice x lattice through PortalProtocolAPI.Store on a real unstarted node with an identity content-id function; the boundary distance == radius is left free.",
+   note="Known finding (3 fingerprints, one cause): little-endian decoding of big-endian keys in the store, pinned by TestPrune. Offer filtering and gossip use of inRange are exercised in C09/C20.", design="5/C06"),
+ "C03": dict(level="exploration", engine="E1",
+   technique="exhaustive enumeration of positions x corruptions over synthetic accumulators through the real header validator against an independent SHA-256 tree reference",
+   text="Seven synthetic accumulator worlds (pre-merge epochs of 1/2/8191/8192 records and a 3-epoch chain; 3 historical roots + 3 Capella + 3 Deneb summaries with all 9x8192 positions committed; an era-dispatch world). Per position (quick: every 16th + boundaries; thorough: all 8192): honest proof verifies; every node with a bit flipped, the header of position +-1 / xor 2^k / +-8192, a twin header, slot moved to neighbours / era ends / below Capella / 2^40 / 2^64-1, zero-record padding, wrong node counts and re-cut containers are refused with an error, never a panic; era dispatch at merge/shanghai/cancun boundaries. Cross-checked against history.BuildProof and history.Accumulator.",
+   note="The oracle-backed summaries path (GetHistoricalSummaries via the beacon network) is not exercised; summaries are supplied directly.", design="5/C03"),
+ "C12": dict(level="model_checking", engine="E1+E2",
+   technique="exhaustive grid of (update kind x participation x slot relation x single corruption) through the real verifier against a transcription of the statement's clauses + explicit-state BFS over update sequences applied to the real store",
+   text="Verification: synthetic 512-member committees (three, for two rotations), sparse state trees, aggregate signatures; update kinds {full, finality, optimistic} x participation {1,342,512} (thorough {0,1,341,342,511,512}) x slot/period relations x one corruption (signature bit, bitmap bit added/removed, each branch node, header fields, committee key, other committee, fork version, genesis root) on all 9 wire-type conversions: implementation accepts => all seven clauses hold; every honest update within the statement is accepted. Application: BFS over verify->apply sequences of a 16-entry (thorough 72-entry) update menu around two period boundaries, depth 4 (thorough 6, reaches a fixpoint); after every transition: slots monotone, optimistic >= finalized, finalized/committees change only with >= 2/3 participation, current committee rotates only to the stored next committee.",
+   note="Fixture slots lie in mainnet's Altair era (the zrnt fork's ForkVersion is off by one fork from Capella on: dependency, outside the statement); no Electra conversions exist in the repository; fake clock via synctest.", design="5/C12"),
+ "C13": dict(level="exploration", engine="E1",
+   technique="exhaustive enumeration of every node on every path of small and medium tries x a fixed mutation-operator set through the real validator and Put against an independent proof walker",
+   text="Account tries over all 63 subsets of a 6-key pool (root branch, extensions, embedded nodes, single leaf), a hand-assembled trie with non-canonical nodes, tries of 1/4/50 (thorough 200/500) hashed keys with storage tries and bytecode; every hash-referenced node is a claim. ~38 mutation operators at every applicable position, singly and in ordered pairs (thorough: + bit flip then structural operator): validator accepts <=> an independent walker written against go-ethereum's rlp accepts (tri-state: silent where the statement is); rejection is an error, never a panic; Put stores exactly the final node / the code and nothing on error.",
+   note="Reference silent on non-canonical nodes, slim account RLP and beyond wire limits (counted, never accepted by the implementation).", design="5/C13"),
 }
 na_reason="check not built yet (work in progress; will be claimed once its checker exists)"
 m={"version":1,
@@ -26,6 +46,8 @@ m={"version":1,
           "source_commits":[], "add_only":True},
  "engines":[
   {"name":"E1","path":"harness/mc/dfs.go","serves_properties":[],"kind_free_text":"stateless choice-sequence DFS with deviation bound; product enumeration"},
+  {"name":"E3","path":"harness/sched.go","serves_properties":[],"kind_free_text":"controlled concurrency: gates + synctest quiescence; schedules = choice sequences with a preemption bound; mutexes of instrumented files modelled"},
+  {"name":"E6","path":"harness/cmd/instr/main.go","serves_properties":[],"kind_free_text":"AST yield / lock-hook injection into the current sources, applied with go build -overlay"},
   {"name":"E2","path":"harness/mc/bfs.go","serves_properties":[],"kind_free_text":"explicit-state BFS; a state is the event history reaching it, successor = replay on a fresh real instance + 1 event; dedup on a canonical rendering"},
  ],
  "checks":[], "not_applicable":[],
